@@ -287,6 +287,10 @@ def execute(case, result):
                 continue
             if start != start_twin:
                 continue
+            if start in (INF, -INF) or start != start:
+                # incrementing an infinite read-back would write an infinite demand: only finite demands are written
+                result.count("increments_skipped_on_an_infinite_read_back")
+                continue
             free = all(ref.limited(add(F(start), k), s) == add(F(start), k) for k in range(n + 1))
             try:
                 for _ in range(n):
